@@ -244,7 +244,7 @@ Definition step (qf : qfn) (p : policy) (st : state) (o : op) : state * obs * ef
           if negb (Nat.eqb (length (hget h1 c1)) (if nat0 then length mask else count_false mask))
           then (mkState h1 (st_inputs st) (st_objs st), Raise ArrayException, eff0)
           else
-            (* if is_native: array_2d *= np.invert(mask_2d)      -- IN PLACE *)
+            (* if is_native: array_2d[np.array(mask_2d, dtype="bool")] = 0      -- IN PLACE (was `array_2d *= np.invert(mask_2d)`) *)
             let '(h2, w) := if nat0 then (hset h1 c1 (maskmul mask (hget h1 c1)), [c1]) else (h1, []) in
             (* if is_native == store_native: return array_2d ; else a new slim / native array *)
             let '(h3, c3) :=
